@@ -129,7 +129,8 @@ def gen_macro_case(rng, cid, nmac):
             macros[name] = ('fun', ps, ebody)
             lines.append('#define %s(%s) %s\n' % (name, ','.join(ps), body))
         else:
-            body = rng.choice(['1', '2', '(3)', '0x10', 'q', '', '-1'] + (names[-3:] if names else []))
+            # (bodies that look like a parameter list: the macro is object-like all the same, '(' does not follow the name)
+            body = rng.choice(['1', '2', '(3)', '0x10', 'q', '', '-1', '(q)', '(q, r)', '()', '(q)+1', '(w)*(w)', '( q )', '(q,r) q'] + (names[-3:] if names else []))
             if rng.random() < 0.2 and names:
                 body = '(%s + %s)' % (rng.choice(names), rng.choice(names))
             ebody = expand(body, macros)
@@ -180,6 +181,9 @@ KNOWN_WITNESSES = {
     'comment_separates': ('#define FOO 1\nFOO/**/BAR\n', [], '1 BAR\n'),
     'char_constant_opaque': ("#define a 5\nc = 'a';\n", [], "c = 'a';\n"),
     'blank_before_paren': ('#define add(a,b) a+b\nx = add (1,2);\n', [], 'x = 1+2;\n'),
+    # an object-like macro whose body starts like a parameter list
+    'obj_paren_body': ('#define ALIAS (other)\nx = ALIAS;\ny = ALIAS(3);\n', [], 'x = (other);\ny = (other)(3);\n'),
+    'obj_paren_body2': ('#define NEXT (i)+1\n#define PAIR (lo, hi)\n#define NIL ()\nx = NEXT; f PAIR; g NIL;\n', [], 'x = (i)+1; f (lo, hi); g ();\n'),
     # repaired: kept as regressions
     'param_blank': ('#define f(a , b) a+b\nf(1,2)\n', [], '1+2\n'),
 }
